@@ -251,6 +251,8 @@ where
     #[inline]
     fn next(&mut self) -> Option<Result<Token, Token::Error>> {
         self.token_start = self.token_end;
+        #[cfg(feature = "verif_hooks")]
+        crate::verif_hooks::attempt_start(self.token_start);
 
         Token::lex(self)
     }
@@ -325,6 +327,8 @@ where
     where
         Chunk: source::Chunk<'source>,
     {
+        #[cfg(feature = "verif_hooks")]
+        crate::verif_hooks::on_read(offset, Chunk::SIZE, self.source.len());
         self.source.read(offset)
     }
 
@@ -332,17 +336,28 @@ where
     #[inline]
     fn trivia(&mut self) {
         self.token_start = self.token_end;
+        #[cfg(feature = "verif_hooks")]
+        crate::verif_hooks::attempt_start(self.token_start);
     }
 
     /// Set the current token to appropriate `#[error]` variant.
     /// Guarantee that `token_end` is at char boundary for `&str`.
     #[inline]
     fn end_to_boundary(&mut self, offset: usize) {
+        #[cfg(feature = "verif_hooks")]
+        crate::verif_hooks::on_end(self.token_start, offset, self.source.len(), true);
         self.token_end = self.source.find_boundary(offset);
     }
 
     #[inline]
     fn end(&mut self, offset: usize) {
+        #[cfg(feature = "verif_hooks")]
+        crate::verif_hooks::on_end(
+            self.token_start,
+            offset,
+            self.source.len(),
+            self.source.is_boundary(offset),
+        );
         self.token_end = offset;
     }
 
